@@ -168,6 +168,7 @@ func checkC19(c *Ctx) {
 			c.ob("C19.R2", f.Name+"/string-argument", w.Pos(f.Decl.Pos()), false, name+"() has no return under a test that its argument is a string")
 		}
 	}
+	checkC19Numeric(c)
 	// R3: the formats agree (composition)
 	c04 := otherRuleObligations(w, "C04.R4")
 	for _, part := range []string{"integral-numbers", "other-numbers", "booleans", "strings"} {
